@@ -68,6 +68,7 @@ const (
 	gfPhgate  = 8
 	gfAck     = 16
 	gfLong    = 32 // (mock, harness only) info lines with principal variations of up to 230 moves
+	gfDeaf    = 64 // (mock, harness only) the search never looks at its ponderhit channel (as the real search does not inside an iteration): the driver's hand-over of the ponderhit must not wait for it
 )
 
 const (
@@ -330,6 +331,9 @@ func (m *c13Mock) Go(_ *board.Board, opts ...search.Option) (Score, move.Move, m
 		info()
 	}
 	ph := o.PonderHit
+	if cfg.a&gfDeaf != 0 {
+		ph = nil
+	}
 	gate := ph != nil && cfg.a&gfPhgate != 0
 	var endC <-chan time.Time
 	arm := func() {
@@ -854,6 +858,9 @@ func c13GenGo(rng *hx.Rng, mode int64) c13Line {
 		}
 		if l.a&gfPonder != 0 && rng.Chance(0.6) {
 			l.a |= gfPhgate
+		} else if l.a&gfPonder != 0 && rng.Chance(0.6) {
+			l.a |= gfDeaf
+			l.a &^= gfAck
 		}
 		l.b = []int64{0, 0, 1, 2, 3, 6, 10}[rng.Intn(7)]
 		if rng.Chance(0.3) {
@@ -1011,6 +1018,12 @@ func c13Input(c *c13Case, sweep string) hx.Input {
 	for _, l := range c.lines {
 		if l.code == c13Go && l.a&gfLong != 0 {
 			tags = append(tags, "info:long-lines")
+			break
+		}
+	}
+	for _, l := range c.lines {
+		if l.code == c13Go && l.a&gfDeaf != 0 {
+			tags = append(tags, "search:deaf-to-ponderhit")
 			break
 		}
 	}
